@@ -345,6 +345,10 @@ def check(ctx):
     import c08 as _c08
     np_ = _core.adopt(ctx, _c08, lambda o: o["rule"] == "C08.e", "C02.f")
     ctx.floor("C02.f", np_, 4, "shared poll obligations (C08.e)")
+    # what a run queued has been applied when the run returns, in both runner configurations (shared with C04.a)
+    import c04 as _c04b
+    nd_ = _core.adopt(ctx, _c04b, lambda o: o["rule"] == "C04.a" and any(k in o["key"] for k in ("deferred-applied", "exclusive-arm-always-runs", "run-then-cleanup")), "C02.f")
+    ctx.floor("C02.f", nd_, 3, "shared deferred-application obligations (C04.a)")
 
     # --- C02.d each command runs in-line exactly once; who-may-call ---
     applies = [b for b in A.command_apply_impls(prog) if b.file.endswith("react/commands.rs") or "react::" in b.path]
